@@ -111,9 +111,51 @@ pub fn pos(b: &Board) -> String {
         }
         s
     });
+    // the single-move legality query on every geometrically plausible triple of this position: own man on the
+    // source, destination on a common rank/file/diagonal or a knight's jump away, all five promotion options
+    // (a superset of every legal move; ~2-3 thousand of the 20480 triples).  `SAME` = accepted exactly the
+    // generated moves; otherwise the accepted triples are listed.
+    let lgq = match &moves {
+        None => "PANIC".to_string(),
+        Some(ms) => match guard(|| {
+            let own = b.color_combined(b.side_to_move()).0;
+            let mut acc: Vec<ChessMove> = Vec::new();
+            for s in 0..64usize {
+                if own & (1u64 << s) == 0 {
+                    continue;
+                }
+                for d in 0..64usize {
+                    if d == s {
+                        continue;
+                    }
+                    let df = ((s & 7) as i32 - (d & 7) as i32).abs();
+                    let dr = ((s >> 3) as i32 - (d >> 3) as i32).abs();
+                    if !(df == 0 || dr == 0 || df == dr || (df == 1 && dr == 2) || (df == 2 && dr == 1)) {
+                        continue;
+                    }
+                    for p in PROMOS.iter() {
+                        let m = ChessMove::new(sq(s), sq(d), *p);
+                        if b.legal(m) {
+                            acc.push(m);
+                        }
+                    }
+                }
+            }
+            acc
+        }) {
+            None => "PANIC".to_string(),
+            Some(acc) => {
+                let mut a: Vec<String> = acc.iter().map(|m| mv(*m)).collect();
+                let mut g: Vec<String> = ms.iter().map(|m| mv(*m)).collect();
+                a.sort();
+                g.sort();
+                if a == g { "SAME".to_string() } else { mvlist(&acc) }
+            }
+        },
+    };
     let alt = pos_alt(b, &moves);
     format!(
-        "POS {} => moves={} len={} hint={} status={} sane={} fen={} reparse={} ghash={} hc={} wk={} bk={} lq={} enum={} po={} alt={}",
+        "POS {} => moves={} len={} hint={} status={} sane={} fen={} reparse={} ghash={} hc={} wk={} bk={} lq={} enum={} po={} lgq={} alt={}",
         dump(b),
         match &moves { Some(m) => mvlist(m), None => "PANIC".into() },
         opt(len),
@@ -129,6 +171,7 @@ pub fn pos(b: &Board) -> String {
         opt(lq.map(b01)),
         en,
         opt(po),
+        lgq,
         alt,
     )
 }
